@@ -17,7 +17,47 @@ import (
 	"verif/mc/rt"
 )
 
-func init() { subcommands["c05worker"] = c05Worker }
+func init() { subcommands["c05worker"] = c05Worker; subcommands["c05mp"] = c05MP }
+
+// c05MP: Parse (and the methods of what it returns) on the documents with
+// hundreds of members, in a process with several processors and no fuel
+// accounting: a call that does not come back stops the progress markers.
+func c05MP(args []string) {
+	shard, _ := strconv.Atoi(args[0])
+	n, _ := strconv.Atoi(args[1])
+	o := &wout{w: bufio.NewWriterSize(os.Stdout, 1<<16), slow: os.Getenv("VERIF_SLOW") != ""}
+	docs := docgen.BrokenMemberDocs()
+	nb := len(docs)
+	docs = append(docs, docgen.LargeDocs()...)
+	for i, d := range docs {
+		if i%n != shard {
+			continue
+		}
+		name := fmt.Sprintf("large#%d", i-nb)
+		if i < nb {
+			name = fmt.Sprintf("broken-members#%d", i)
+		}
+		o.beat()
+		o.states++
+		for _, os := range c05OptSets {
+			o.evals++
+			mk := func() rt.Case { return rt.Case{Kind: "parsecall", Doc: name, Cfg: os.Name, X: map[string]string{"processors": "4"}} }
+			o.begin(mk)
+			obj, err, pan := parseChecked(d, os.O)
+			if pan != "" || (obj == nil) == (err == nil) {
+				o.fail("parse", mk(), "returns (object, nil) or (nil, error)", fmt.Sprintf("obj=%v err=%v panic=%s", obj, err, pan))
+				continue
+			}
+			if obj != nil {
+				obj.JSON()
+				obj.ForEach(func(geojson.Object) bool { return true })
+				obj.Contains(obj)
+			}
+		}
+	}
+	fmt.Fprintf(o.w, "O mp\nE %d %d %d %d %d\n", o.evals, o.states, o.trans, o.nt, 0)
+	o.w.Flush()
+}
 
 type wout struct {
 	nbegin                   int64
@@ -326,6 +366,16 @@ func c05Parse(o *wout, shard, n int, thorough bool) {
 			c05ParseOne(o, nestDoc(fam, d))
 			o.states++
 		}
+	}
+	// collections of hundreds of members several of which are not acceptable
+	for i, d := range docgen.BrokenMemberDocs() {
+		if i%n != shard {
+			continue
+		}
+		o.beat()
+		o.states++
+		o.nt++
+		c05ParseNamed(o, fmt.Sprintf("broken-members#%d", i), d)
 	}
 	// runs of 24 Mi bytes of one kind (white space in every place the grammar
 	// allows it, string bodies, digits, zeros, array elements): the work and
